@@ -25,6 +25,7 @@ def PhaseRel (s : Scn L) (ex : List Exch) : Phase → Prop
   | .ended .replied => s.sa = false ∧ gotReply s ex = true
   | .ended .synthetic => s.sa = false ∧ cursorOf s ex = [] ∧ gotReply s ex = false
   | .ended .streaming => s.sa = true
+  | .ended .cancelled => gotReply s ex = false
   | .ended (.failed .exceeded) => gotReply s ex = false ∧ fruitlessOf s ex > s.mr
   | .ended (.failed .connect) => gotReply s ex = false ∧ (s.mr = 0 ∨ trailingTerr ex ≥ s.mr)
   | .ended (.failed (.rejected c)) => gotReply s ex = false ∧ lastIsStatus ex c = true
